@@ -162,14 +162,15 @@ def shard(args):
         return dict(ok=False, err='scheduler timeout: %s' % e)
 
 
-def run_shards(jobs, procs=None, timeout=900):
+def run_shards(jobs, procs=None, timeout=900, fn=None):
+    fn = fn or shard
     procs = procs or max(2, min(14, (os.cpu_count() or 4) - 2))
     if len(jobs) <= 1 or procs <= 1:
-        return [shard(j) for j in jobs]
+        return [fn(j) for j in jobs]
     ctx = multiprocessing.get_context('fork')
     pool = ctx.Pool(min(procs, len(jobs)))
     try:
-        res = pool.map_async(shard, jobs, chunksize=1).get(timeout=timeout)
+        res = pool.map_async(fn, jobs, chunksize=1).get(timeout=timeout)
     except multiprocessing.TimeoutError:
         pool.terminate()
         raise core.Infra('scheduled runs did not finish in %ds' % timeout)
